@@ -3,6 +3,9 @@ CONSTANTS
   Threads = {1, 2}
   MaxCalls = 2
   Hint = FALSE
+  Strats <- NoStrats
+  Strats2 <- StratsBilinear
+  Ids <- OneId
 INVARIANTS OnlyValidBuilt SameQuestionSameAnswer ElementsAgree AnsweredIffInRange FiniteNeverRejected ShapeOk BadBufferNeverOk KnotsReproduced PeriodicFunction
 PROPERTY Immutable
 CHECK_DEADLOCK FALSE
